@@ -101,7 +101,8 @@ def run_case(case):
         ffs = FailFS()
 
         def cache_odb(name, gen):
-            return LocalHashFileDB(lfs, os.path.join(root, f"{name}-{gen}"))
+            # (caches have a temporary directory too, as in a project: an index of "what the store holds" can be kept for them)
+            return LocalHashFileDB(lfs, os.path.join(root, f"{name}-{gen}"), tmp_dir=os.path.join(root, f"tmp-{name}-{gen}"))
 
         def remote_odb(name):
             return HashFileDB(ffs, os.path.join(root, name), tmp_dir=os.path.join(root, "tmp-" + name))
